@@ -357,6 +357,9 @@ sstat MainSolver::giveToSolver(PTRef root, FrameId push_id) {
 
 sstat MainSolver::check() {
     ++check_called;
+#ifdef OPENSMT_VERIF_HOOKS
+    if (verif::on()) { verif::raw("CHECKCALL"); }
+#endif
     if (config.timeQueries()) {
         printf("; %s query time so far: %f\n", solver_name.c_str(), query_timer.getTime());
         StopWatch sw(query_timer);
